@@ -64,11 +64,16 @@ func (r *Repository) Cancel(ctx context.Context, id string) error {
 
 func (r *Repository) MarkAsDispatched(ctx context.Context, id string) error {
 	err := r.Repository.MarkAsDispatched(ctx, id)
-	if err != nil {
+	if err != nil && def.IsDefError(err) {
+		// Refused by the life cycle rules: nothing has changed.
 		return err
 	}
+	// Success, or an error of the repository itself (a lost connection, a cancelled context, ...)
+	// after which the task may have been marked nonetheless.
+	// Let the timer look again in both cases: the fire for this task is spent,
+	// and nothing else would arm it for the task that follows.
 	r.HookTimer.MarkAsDispatched(ctx, id)
-	return nil
+	return err
 }
 
 func (r *Repository) MarkAsDone(ctx context.Context, id string, err error) error {
